@@ -32,7 +32,8 @@ FLOORS = {'aggregate_evaluations': 3000, 'two_dimensional': 200,
           'order_relations': 100, 'sumproduct_cases': 100,
           'same_cells_twice': 300, 'library_calls_monitored': 100,
           'absolute_rectangles': 100, 'big_rectangles': 6,
-          'big_integer_cases': 50, 'zero_valued_rectangles': 6}
+          'big_integer_cases': 50, 'zero_valued_rectangles': 6,
+          'derived_models': 20, 'float_lookalike_text_cases': 50}
 ANCHOR_FUNCS = {
     'xlcalculator/xlfunctions/math.py': ['SUM', 'SUMPRODUCT'],
     'xlcalculator/xlfunctions/statistics.py': ['AVERAGE', 'MIN', 'MAX',
@@ -264,6 +265,33 @@ def run(ctx):
     B.flush(judge)
     ctx.block('fill patterns {n,b,t}^cells x shapes', idx // ctx.nshards)
 
+    # ---- texts that Python's float() would read (Infinity, 1e999, nan) are
+    # non-numeric text in a range: ignored like any other text --------------
+    if ctx.shard in (5, 6) or thorough:
+        for t_ in ('Infinity', 'inf', '-inf', '1e999', '-1E400', 'nan',
+                   'NaN'):
+            cells_ = {'A1': 1.5, 'A2': t_, 'A3': 2.25, 'B1': 'abc', 'B2': 4.0,
+                      'B3': t_}
+            probes = {'=SUM(A1:B3)': 7.75, '=SUM(A1:A3)+SUM(B1:B3)': 7.75,
+                      '=AVERAGE(A1:B3)': 7.75 / 3, '=MAX(A1:B3)': 4.0,
+                      '=MIN(A1:B3)': 1.5, '=COUNT(A1:B3)': 3.0,
+                      '=COUNTA(A1:B3)': 6.0,
+                      '=SUMPRODUCT(A1:A3,A1:A3)': 1.5 * 1.5 + 2.25 * 2.25}
+            outs = subject.eval_batch(list(probes), cells_)
+            for (text, want), got in zip(probes.items(), outs):
+                ctx.event('aggregate_evaluations')
+                ctx.event('float_lookalike_text_cases')
+                ctx.case(('float-lookalike', t_, text[:8]))
+                ok = got[0] == 'value' and got[1][0] == 'num' and \
+                    abs(got[1][1] - want) <= 1e-9
+                if not ok:
+                    ctx.fail(f'{text} over {cells_}: observed {got}, '
+                             f'reference {want} (the text {t_!r} is no '
+                             f'number)', {'formula': text, 'cells': cells_,
+                                          'observed': got, 'reference': want},
+                             monitor='reference-fold',
+                             group=f'float-lookalike:{text[:6]}')
+
     # ---- zeros are values (COUNTA counts them, MIN/MAX/AVERAGE see them) ----
     if ctx.shard in (3, 4) or thorough:
         for m_ in ([[0, 'tx'], [None, 0.0]], [[0, 0, 0]], [[0.0], [None], [5.5]],
@@ -411,6 +439,8 @@ def run(ctx):
                 for v in numbers(rng, rows * cols)]
         if not any(isinstance(v, float) for v in flat):
             flat[0] = 2.5
+        if rng.random() < 0.5:
+            flat[rng.randrange(len(flat))] = rng.choice([0, 0.0])
         cells = {}
         for i, v in enumerate(flat):
             if v is not None:
@@ -424,7 +454,17 @@ def run(ctx):
         for j, (f, ast) in enumerate(probes.items()):
             inputs[f'H{j + 1}'] = '=' + ref.render(ast)
         try:
-            ev = Evaluator(subject.compile_dict(inputs))
+            # the model the aggregates are evaluated on: compiled, or handed
+            # on by the API (deep copy, JSON file, extraction of everything)
+            import os
+            from vlib import bootstrap, build
+            prov = rng.choice(['compiled', 'compiled', 'json', 'extracted',
+                               'deepcopy'])
+            ev = Evaluator(build.derive(
+                subject.compile_dict(inputs), prov, os.path.join(
+                    bootstrap.VERIF, 'out', 'c14', f's{ctx.shard}.json')))
+            if prov != 'compiled':
+                ctx.event('derived_models')
         except Exception as e:  # noqa
             ctx.fail(f'compiling {inputs} raised {e!r}', {'cells': inputs},
                      monitor='construction', group='compile')
